@@ -276,7 +276,7 @@ End ConfigFile.
 Theorem C19_run_rewrites_idempotent : forall cfg, run_rewrites (run_rewrites cfg) = run_rewrites cfg.
 Proof. exact run_rewrites_idem. Qed.
 
-(* D8 (DESIGN section 4), regression witness.  The model of main BEFORE fix e0eac6a stored the
+(* D8 (DESIGN section 4), regression witness.  The model of main BEFORE fix e44909e stored the
    derived right interval [-max, -min] in the configuration it saved; the input check refuses
    that file (right disp must be None when the left one is a pair).  The repaired main saves a
    configuration that is accepted and saved again unchanged. *)
